@@ -595,12 +595,18 @@ class AlternateSubstStatement(Statement):
     """A ``sub ... from ...`` statement.
 
     ``glyph`` and ``replacement`` should be `glyph-containing objects`_.
-    ``prefix`` and ``suffix`` should be lists of `glyph-containing objects`_."""
+    ``prefix`` and ``suffix`` should be lists of `glyph-containing objects`_.
 
-    def __init__(self, prefix, glyph, suffix, replacement, location=None):
+    If ``forceChain`` is True, this is expressed as a chaining rule
+    (e.g. ``sub a' from [a.1 a.2]``) even when no context is given."""
+
+    def __init__(
+        self, prefix, glyph, suffix, replacement, forceChain=False, location=None
+    ):
         Statement.__init__(self, location)
         self.prefix, self.glyph, self.suffix = (prefix, glyph, suffix)
         self.replacement = replacement
+        self.forceChain = forceChain
 
     def build(self, builder):
         """Calls the builder's ``add_alternate_subst`` callback."""
@@ -610,11 +616,13 @@ class AlternateSubstStatement(Statement):
         prefix = [p.glyphSet() for p in self.prefix]
         suffix = [s.glyphSet() for s in self.suffix]
         replacement = self.replacement.glyphSet()
-        builder.add_alternate_subst(self.location, prefix, glyph, suffix, replacement)
+        builder.add_alternate_subst(
+            self.location, prefix, glyph, suffix, replacement, self.forceChain
+        )
 
     def asFea(self, indent=""):
         res = "sub "
-        if len(self.prefix) or len(self.suffix):
+        if len(self.prefix) or len(self.suffix) or self.forceChain:
             if len(self.prefix):
                 res += " ".join(map(asFea, self.prefix)) + " "
             res += asFea(self.glyph) + "'"  # even though we really only use 1
